@@ -237,7 +237,7 @@ def gen_query(rng, e, target):
     cells = [c for c in cells if type(c).__name__ not in ('RecordList', 'RecordSet', 'Record')]
     for _ in range(n):
       x = rng.random()
-      if cells and x < 0.5:
+      if cells and x < 0.65:
         v = rng.choice(cells)
         if rng.random() < 0.4:
           v = variants(rng, v)
@@ -372,10 +372,7 @@ def gen_cases(ctx):
 
 
 def correspond(ctx):
-  tables = {}      # (doc index, target) -> name
-  defs = []
-  coq = []
-  info = []
+  groups = {}      # (doc index, target) -> [table term or None, [case terms], [witnesses]]
   for di, doc, e, target, formulas, private, query in gen_cases(ctx):
     w = {'doc': doc, 'target': target, 'formulas': formulas, 'private': private,
          'query': None if query is None else [[c, [to_json(v) for v in vs]] for c, vs in query.items()]}
@@ -388,14 +385,12 @@ def correspond(ctx):
     if desc:
       ctx.violation('oracle', desc, w)
     key = (di, target)
-    if key not in tables:
-      name = 'tbl_%d' % len(tables)
-      tables[key] = name
+    if key not in groups:
       try:
-        defs.append('Definition %s : table := %s.' % (name, enc_table(e.tables[target])))
+        groups[key] = [enc_table(e.tables[target]), [], []]
       except Unencodable:
-        tables[key] = None
-    name = tables[key]
+        groups[key] = [None, [], []]
+    g = groups[key]
     feats = features(e, target, query, res)
     live = len(list(e.tables[target].row_ids))
     nontrivial = ('missing-column' in feats) or (bool(query) and live > 0)
@@ -404,22 +399,26 @@ def correspond(ctx):
                       'rows': None if isinstance(res, KeyError) else list(res.row_ids)} if nontrivial else None)
     for f in feats:
       ctx.bump(f)
-    if name is None:
+    if g[0] is None:
       ctx.bump('skipped:unencodable')
       continue
     try:
-      coq.append('(%s, %s, %s, %s, %s)' % (name, core.boollit(formulas), core.boollit(private), enc_query(query),
-                                           enc_result(res)))
-      info.append(w)
+      g[1].append('(%s, %s, %s, %s)' % (core.boollit(formulas), core.boollit(private), enc_query(query),
+                                        enc_result(res)))
+      g[2].append(w)
     except Unencodable:
       ctx.bump('skipped:unencodable')
-  ctx.log('cases: %d, tables: %d' % (len(coq), len(defs)))
+  gs = [g for g in groups.values() if g[0] is not None and g[1]]
+  coq = ['(%s, %s)' % (g[0], core.coq_list(g[1])) for g in gs]
+  ctx.log('cases: %d on %d tables' % (sum(len(g[1]) for g in gs), len(gs)))
+  # one Coq case = one table with all its queries; a failing query makes its whole group fail
   bad = ctx.run_cases('fetch', ['Grist.Lib.PyVal', 'Grist.Model.FetchQuery'],
-                      "fun c => let '(t, f, p, q, e) := c in result_eqb (fetch t f p q) e",
-                      coq, shard=600, extra_defs='\n'.join(defs))
-  for i in bad[:5]:
-    ctx.broken('correspondence:model fetch differs from engine.fetch_table', 'case %r' % (info[i],))
-  ctx._c41_done = True
+                      "fun c => forallb (fun x => let '(f, p, q, e) := x in result_eqb (fetch (fst c) f p q) e) (snd c)",
+                      coq, shard=12)
+  for i in bad[:3]:
+    ctx.broken('correspondence:model fetch differs from engine.fetch_table',
+               'one of the queries %r on the table of %r' % ([(w['formulas'], w['private'], w['query']) for w in gs[i][2]],
+                                                            {k: gs[i][2][0][k] for k in ('doc', 'target')}))
 
 
 def search(ctx):
